@@ -161,6 +161,14 @@ pub fn minimize(_: &[u8], _: &[u8], _: &[u8]) -> String { "NOFEATURE".into() }
 #[cfg(not(feature = "likely"))]
 pub fn li_change(_: &[u8], _: bool) -> String { "NOFEATURE".into() }
 
+pub const EXTRA_LANGS: [&str; 30] = ["mis", "mul", "zxx", "art", "cel", "sgn", "qtz", "iw", "in", "ji", "jw", "mo", "sh", "tl", "no", "nb", "nn", "bh", "ajp",
+    "cmn", "yue", "nan", "hak", "swc", "tlh", "jbo", "eo", "ia", "vo", "grc"];
+pub const EXTRA_SCRIPTS: [&str; 40] = ["Aran", "Cyrs", "Latf", "Latg", "Syre", "Syrj", "Syrn", "Hanb", "Jpan", "Kore", "Hrkt", "Zsym", "Zsye", "Zmth", "Zxxx",
+    "Zinh", "Zyyy", "Brai", "Egyd", "Egyh", "Egyp", "Geok", "Hanj", "Visp", "Qabx", "Qaai", "Blis", "Cirt", "Inds", "Loma", "Maya", "Moon", "Nkgb", "Roro", "Sara",
+    "Shui", "Teng", "Wole", "Afak", "Kpel"];
+pub const EXTRA_REGIONS: [&str; 44] = ["AA", "QM", "QZ", "XA", "XB", "XZ", "EU", "UN", "UK", "AC", "CP", "DG", "EA", "IC", "TA", "FX", "SU", "YU", "CS", "AN", "BU",
+    "DD", "NT", "TP", "ZR", "000", "002", "003", "005", "009", "011", "013", "015", "019", "021", "029", "030", "034", "142", "143", "150", "202", "830", "900"];
+
 pub const TABLE_NAMES: [&str; 10] = [
     "LANG_ONLY", "LANG_REGION", "LANG_SCRIPT", "SCRIPT_REGION", "SCRIPT_ONLY", "REGION_ONLY",
     "SCRIPTS_LTR", "SCRIPTS_RTL", "SCRIPTS_TTB", "LANGS_RTL",
@@ -190,6 +198,11 @@ pub fn universe() -> (Vec<String>, Vec<String>, Vec<String>, Vec<(String, String
     for u in ["xx", "xxx", "qaa", "abcdefgh", "zzzzz"] { ls.insert(u.into()); }
     for u in ["Zzzz", "Xxxx", "Qaaa"] { ss.insert(u.into()); }
     for u in ["ZZ", "XX", "999", "001", "QO"] { rs.insert(u.into()); }
+    // registered codes that the CLDR likely-subtags data may not mention: ISO 639 special / collective / deprecated
+    // languages, ISO 15924 variant and special scripts, ISO 3166 exceptional / private-use / withdrawn and UN M.49 regions
+    for u in EXTRA_LANGS.iter() { ls.insert((*u).into()); }
+    for u in EXTRA_SCRIPTS.iter() { ss.insert((*u).into()); }
+    for u in EXTRA_REGIONS.iter() { rs.insert((*u).into()); }
     (ls.into_iter().collect(), ss.into_iter().collect(), rs.into_iter().collect(), keys)
 }
 #[cfg(not(all(feature = "likely", unic_locale_verif)))]
@@ -246,6 +259,22 @@ pub fn run(out: &mut Out, tier: &str, rng: &mut Rng) {
                 out.case("minimize", &[a, b, c], || minimize(a, b, c));
             }
         }
+        out.comment("registered codes outside the CLDR likely-subtags data, each combined with known and unknown neighbours");
+        for sc in EXTRA_SCRIPTS.iter() { for l in ["", "ur", "ar", "en", "zh", "sr", "xx"] { for r in ["", "PK", "US", "XX"] {
+            let (a, b, c) = (l.as_bytes(), sc.as_bytes(), r.as_bytes());
+            out.case("maximize", &[a, b, c], || maximize(a, b, c));
+            out.case("minimize", &[a, b, c], || minimize(a, b, c));
+        } } }
+        for rg in EXTRA_REGIONS.iter() { for l in ["", "en", "es", "zh", "xx"] { for sc in ["", "Latn", "Hant", "Xxxx"] {
+            let (a, b, c) = (l.as_bytes(), sc.as_bytes(), rg.as_bytes());
+            out.case("maximize", &[a, b, c], || maximize(a, b, c));
+            out.case("minimize", &[a, b, c], || minimize(a, b, c));
+        } } }
+        for l in EXTRA_LANGS.iter() { for sc in ["", "Latn", "Cyrl", "Xxxx"] { for r in ["", "US", "RS", "XX"] {
+            let (a, b, c) = (l.as_bytes(), sc.as_bytes(), r.as_bytes());
+            out.case("maximize", &[a, b, c], || maximize(a, b, c));
+            out.case("minimize", &[a, b, c], || minimize(a, b, c));
+        } } }
         out.comment("random triples over the CLDR universe + unknowns");
         let n = if thorough { 500_000 } else { 30_000 };
         for _ in 0..n {
